@@ -15,6 +15,12 @@ pub struct Data {
     pub scales: Vec<f64>,
     pub x: Vec<Vec<f64>>, // n x p
     pub y: Vec<Vec<f64>>, // n x 3
+    /// only the OLS part is run on this member (strongly offset images of the tall designs)
+    #[serde(default)]
+    pub ols_only: bool,
+    /// restricts the member to one float type ("f64": offsets that f32 cannot resolve)
+    #[serde(default)]
+    pub only_float: Option<String>,
 }
 
 /// Which per-column (offset, scale) images of a design are enumerated.
@@ -37,6 +43,9 @@ pub struct Design {
     pub thorough: Images,
 }
 
+/// Strong offsets of the tall designs (unit spacing): 1e7 only in f64, 2000 in both float types.
+pub const STRONG_OFFSETS: [(f64, bool); 2] = [(1e7, true), (2000.0, false)];
+
 fn full_factorial(levels: &[usize], reps: usize) -> Vec<Vec<i64>> {
     let mut out = Vec::new();
     for g in en::grid(levels) {
@@ -45,6 +54,15 @@ fn full_factorial(levels: &[usize], reps: usize) -> Vec<Vec<i64>> {
         }
     }
     out
+}
+
+/// Lattice points (i, j) of the k x k lattice with |i - j| <= 1 (strongly correlated columns): 3k - 2 points.
+fn band(k: usize) -> Vec<Vec<i64>> {
+    en::grid(&[k, k]).into_iter().filter(|g| (g[0] as i64 - g[1] as i64).abs() <= 1).map(|g| g.iter().map(|&v| v as i64).collect()).collect()
+}
+
+pub fn is_tall(id: &str) -> bool {
+    id.starts_with("p1_n16") || id.starts_with("p1_n24") || id.starts_with("p1_n40") || id.starts_with("p2_n16") || id.starts_with("p2_n24") || id.starts_with("p2_n40")
 }
 
 pub fn designs() -> Vec<Design> {
@@ -92,6 +110,15 @@ pub fn designs() -> Vec<Design> {
             PerColumn, PerColumn),
         d("p3_n12_ff2x2x3", full_factorial(&[2, 2, 3], 1), Skip, Same),
         d("p3_n12_frac2x3x4_cyclic", (0..12).map(|i| vec![i % 2, i % 3, i % 4]).collect(), Skip, Same),
+        // ---- tall designs (n >= 8 x number of columns incl. the constant column): replicated / extended lattices
+        d("p1_n16_4levels_x4", full_factorial(&[4], 4), Cross, Cross),
+        d("p1_n24_6levels_x4", full_factorial(&[6], 4), Skip, Cross),
+        d("p1_n40_8levels_x5", full_factorial(&[8], 5), Cross, Cross),
+        d("p2_n16_ff4x4", full_factorial(&[4, 4], 1), Same, PerColumn),
+        d("p2_n16_frac6x6_band", band(6), Skip, Same),
+        d("p2_n24_ff4x6", full_factorial(&[4, 6], 1), Skip, Same),
+        d("p2_n40_ff5x8", full_factorial(&[5, 8], 1), Same, Same),
+        d("p2_n40_frac14x14_band", band(14), Same, Same),
     ]
 }
 
@@ -163,7 +190,29 @@ pub fn enumerate(thorough: bool) -> Vec<Data> {
         let y = targets(&z);
         for (os, ss) in images(p, mode) {
             let x: Vec<Vec<f64>> = z.iter().map(|r| (0..p).map(|j| q((r[j] + os[j]) * ss[j])).collect()).collect();
-            out.push(Data { design: d.id.to_string(), variant: "full_rank".into(), offsets: os.clone(), scales: ss.clone(), x, y: y.clone() });
+            out.push(Data { design: d.id.to_string(), variant: "full_rank".into(), offsets: os.clone(), scales: ss.clone(), x, y: y.clone(), ols_only: false, only_float: Option::None });
+        }
+        // tall designs: strongly offset images, OLS only ("whatever the offsets of the features")
+        if is_tall(d.id) {
+            for &(off, f64_only) in &STRONG_OFFSETS {
+                let mut imgs: Vec<Vec<f64>> = vec![vec![off; p]];
+                if p == 2 {
+                    imgs = vec![vec![off, -1.5 * off], vec![off, 0.0], vec![0.0, off]];
+                }
+                for os in imgs {
+                    let x: Vec<Vec<f64>> = z.iter().map(|r| (0..p).map(|j| q(r[j] + os[j])).collect()).collect();
+                    out.push(Data {
+                        design: d.id.to_string(),
+                        variant: "strong_offset".into(),
+                        offsets: os.clone(),
+                        scales: vec![1.0; p],
+                        x,
+                        y: y.clone(),
+                        ols_only: true,
+                        only_float: if f64_only { Some("f64".to_string()) } else { Option::None },
+                    });
+                }
+            }
         }
         // targets that are an even function of column 0 (integers): column 0 is EXACTLY orthogonal to every
         // centred target, i.e. its correlation sits exactly at 0 <= l1 threshold (image (0, 1) only: exact arithmetic)
@@ -173,7 +222,7 @@ pub fn enumerate(thorough: bool) -> Vec<Data> {
             const K: [f64; 3] = [1.0, 2.0, -1.0];
             const L: [f64; 3] = [3.0, -1.0, 2.0];
             let ye: Vec<Vec<f64>> = z.iter().map(|r| (0..3).map(|t| C[t] + K[t] * (2.0 * r[0]) * (2.0 * r[0]) + if p > 1 { L[t] * r[1] } else { 0.0 }).collect()).collect();
-            out.push(Data { design: d.id.to_string(), variant: "even_targets".into(), offsets: vec![0.0; p], scales: vec![1.0; p], x: z.clone(), y: ye });
+            out.push(Data { design: d.id.to_string(), variant: "even_targets".into(), offsets: vec![0.0; p], scales: vec![1.0; p], x: z.clone(), y: ye, ols_only: false, only_float: Option::None });
         }
         // rank-deficient variants (p <= 2 so that p stays <= 3): same image for all columns
         let variants = d.id == "p1_n6_3levels_x2" || (thorough && d.id == "p2_n4_ff2x2");
@@ -182,10 +231,10 @@ pub fn enumerate(thorough: bool) -> Vec<Data> {
                 let x: Vec<Vec<f64>> = z.iter().map(|r| (0..p).map(|j| q((r[j] + os[j]) * ss[j])).collect()).collect();
                 for c in if thorough { vec![0.0, 1.0, 5000.0] } else { vec![1.0] } {
                     let xc: Vec<Vec<f64>> = x.iter().map(|r| r.iter().cloned().chain(std::iter::once(c)).collect()).collect();
-                    out.push(Data { design: d.id.to_string(), variant: format!("const_col={}", c), offsets: os.clone(), scales: ss.clone(), x: xc, y: y.clone() });
+                    out.push(Data { design: d.id.to_string(), variant: format!("const_col={}", c), offsets: os.clone(), scales: ss.clone(), x: xc, y: y.clone(), ols_only: false, only_float: Option::None });
                 }
                 let xd: Vec<Vec<f64>> = x.iter().map(|r| r.iter().cloned().chain(std::iter::once(r[0])).collect()).collect();
-                out.push(Data { design: d.id.to_string(), variant: "dup_col0".into(), offsets: os.clone(), scales: ss.clone(), x: xd, y: y.clone() });
+                out.push(Data { design: d.id.to_string(), variant: "dup_col0".into(), offsets: os.clone(), scales: ss.clone(), x: xd, y: y.clone(), ols_only: false, only_float: Option::None });
             }
         }
     }
